@@ -153,13 +153,13 @@ func extractOf(call *ssa.Call, idx int) ssa.Value {
 type cgKind int
 
 const (
-	cgTop cgKind = iota
-	cgNs         // the input duration in ns
-	cgSec        // the whole-second count: class (sign, |x| mod 3600)
-	cgSecNs      // sec * 1e9
-	cgExact      // a known integer
+	cgTop   cgKind = iota
+	cgNs           // the input duration in ns
+	cgSec          // the whole-second count: class (sign, |x| mod 3600)
+	cgSecNs        // sec * 1e9
+	cgExact        // a known integer
 	cgBool
-	cgOther // strings etc.
+	cgOther   // strings etc.
 	cgNonZero // an integer known to differ from 0 (the sub-second remainder of a non-whole duration)
 )
 
